@@ -884,7 +884,7 @@ func TestVerifC03(t *testing.T) {
 		}
 		r := vCaseRand(seed, i)
 		c := c03Gen(t, r, i)
-		results, log, sync, htab := c03Run(t, c)
+		results, log, synced, htab := c03Run(t, c)
 		// ---- Gallina ----
 		bl := make([]string, len(c.blocks))
 		for bi, b := range c.blocks {
@@ -918,7 +918,7 @@ func TestVerifC03(t *testing.T) {
 			lg[k] = fmt.Sprintf("(%d, %d, %d)", l[0], l[1], l[2])
 		}
 		term := fmt.Sprintf("(%s\n  {| c_in := {| i_retries := %d; i_blocks := %s;\n    i_htab := %s;\n    i_ops := %s |};\n   c_obs := {| ob_res := %s;\n    ob_log := %s; ob_sync := %s |} |})",
-			c.lets(), c.retries, gList(bl), gList(ht), gList(ops), gList(rs), gList(lg), gBool(sync))
+			c.lets(), c.retries, gList(bl), gList(ht), gList(ops), gList(rs), gList(lg), gBool(synced))
 		var bd []map[string]interface{}
 		for _, b := range c.blocks {
 			var sc [][]string
@@ -932,7 +932,7 @@ func TestVerifC03(t *testing.T) {
 			bd = append(bd, map[string]interface{}{"locator": b.loc, "size": len(b.content), "order": b.order, "script": sc, "consistent": b.consistent})
 		}
 		desc := map[string]interface{}{"index": i, "services": c.nsvc, "retries": c.retries, "blocks": bd, "ops": ops, "results": ds,
-			"requests": log, "loopback": c.net, "concurrent_readers_synchronised": sync}
+			"requests": log, "loopback": c.net, "concurrent_readers_synchronised": synced}
 		tags := append([]string(nil), c.tags...)
 		for _, o := range c.ops {
 			tags = append(tags, "op="+[]string{"get", "readat", "concurrent-readat", "file"}[o.kind])
@@ -943,6 +943,9 @@ func TestVerifC03(t *testing.T) {
 					tags = append(tags, "first-answer="+row[0].beh)
 				}
 			}
+		}
+		if !synced {
+			tags = append(tags, "concurrent-readers-not-synchronised")
 		}
 		cs.Add(i, term, desc, len(log) >= 2, tags...)
 	}
